@@ -28,7 +28,23 @@ func c03Gen(r *rand.Rand, tier string) any {
 	sc := &histScenario{Spec: genProject(r, o), Proc: genProc(r)}
 	sc.Proc.Strategy = []int{simrt.StratUniform, simrt.StratSticky, simrt.StratFIFO, simrt.StratRoundRobin}[r.IntN(4)]
 	shadow := sc.clone().Spec
-	sc.Mode = []string{"crash", "crash", "crash", "fail", "fail", "ioerr", "compose", "crash-revert", "diskfull"}[r.IntN(9)]
+	sc.Mode = []string{"crash", "crash", "crash", "fail", "fail", "ioerr", "compose", "crash-revert", "diskfull", "crash-unalways"}[r.IntN(10)]
+	if sc.Mode == "crash-unalways" {
+		// an always=True target is interrupted; always= is then removed (it is not part of the
+		// function's environment, so nothing else about the target changes)
+		if len(shadow.Targets) == 0 {
+			sc.Mode = "crash"
+		} else {
+			k := r.IntN(len(shadow.Targets))
+			shadow.Targets[k].Always, sc.Spec.Targets[k].Always = true, true
+			label := pickLabel(r, shadow)
+			if r.IntN(3) != 0 {
+				label = shadow.Targets[k].label()
+			}
+			sc.Ops = append(sc.Ops, opSpec{Op: "build", Label: label}, opSpec{Op: "build", Label: label})
+			return sc
+		}
+	}
 	if sc.Mode == "crash-revert" {
 		// full build, one item edit, interrupted rebuild
 		label := pickLabel(r, shadow)
@@ -591,6 +607,35 @@ func c03Exec(scAny any, c *simcheck.Ctx) *simcheck.Violation {
 				if v := h.recoverAndCheck("compose", last+2, final.Label, want, unfinished, what); v != nil {
 					return narrow(v, idx)
 				}
+				continue
+			}
+			if sc.Mode == "crash-unalways" {
+				n := 0
+				for _, l := range unfinished {
+					if t := h.p.target(l); t != nil && t.Always {
+						if err := h.edit(last, &opSpec{Op: "set-always", Label: l, N: 0}); err != nil {
+							return simcheck.V(simcheck.EngineError, "edit: %v", err)
+						}
+						n++
+					}
+				}
+				if n == 0 {
+					continue
+				}
+				c.St.Count("always_removed_after_crash", 1)
+				what += "; always= was then removed from the interrupted targets"
+				if v := h.recoverAndCheck("crash-unalways", last+1, final.Label, want, unfinished, what); v != nil {
+					return narrow(v, idx)
+				}
+				h.p = sc.clone().Spec
+				for i := 0; i < last; i++ {
+					if !isProcessOp(sc.Ops[i].Op) {
+						h.p.applySpecEdit(&sc.Ops[i])
+					}
+				}
+				h.prev = h.p.files()
+				h.w.bodies = h.p.bodySpecs(h.w.root)
+				h.refreshModel("restored")
 				continue
 			}
 			if sc.Mode == "crash-revert" {
